@@ -56,6 +56,7 @@ impl<R: Read + Seek + HasLength> Inner<R> {
     fn read_at(&mut self, offset: u64, buf: &mut [u8]) -> std::io::Result<usize> {
         if offset != self.pos {
             self.r.seek(SeekFrom::Start(offset))?;
+            self.pos = offset;
         }
         let read_result = self.r.read(buf);
         if let Ok(bytes_read) = read_result {
